@@ -56,7 +56,13 @@ fn raw_op(u: &mut Unstructured, bursts: bool) -> Result<RawOp> {
                 RawOp::InsertBatch { items: u.arbitrary()?, n: u.arbitrary()? }
             }
         }
-        _ => RawOp::Counters,
+        _ => {
+            if u.arbitrary::<bool>()? {
+                RawOp::Handle { sel: u.arbitrary()? }
+            } else {
+                RawOp::DebugFmt
+            }
+        }
     })
 }
 
